@@ -74,6 +74,25 @@ def ledger_variants(rng):
         d = copy.deepcopy(doc)
         d["elements"][3]["signature"] = certs.flip(rng, d["elements"][3]["signature"])
         yield ("broken-signer-signature", d, root.pub().hex(), vc.pubkeys_json(keys), False)
+        # a forged attestation element (signed by an unrelated key) hidden behind an extra / repeated
+        # target that the command itself does not look at
+        forged = copy.deepcopy(doc)
+        att = next(e for e in forged["elements"] if e["name"] == "attestation")
+        att["signature"] = certs.K1Key(rng).sign(bytes.fromhex(att["message"])).hex()
+        for tg in (["attestation", "ui", "signer"], ["ui", "signer", "ui"], ["device", "attestation", "signer", "ui"]):
+            d = copy.deepcopy(forged)
+            d["targets"] = tg
+            yield ("forged-attestation-targets-" + "+".join(tg), d, root.pub().hex(), vc.pubkeys_json(keys), False)
+        # a key set over other paths, chosen so that ordering the paths as numbers and as strings differ
+        alt_paths = [vc.UI_PATH, "m/44'/2'/0'/0/0", "m/44'/137'/0'/0/0", "m/44'/60'/0'/0/0",
+                     "m/44'/10'/0'/0/0", "m/44'/9'/0'/0/0"]
+        akeys = vc.make_pubkeys(rng, alt_paths)
+        akh = vc.keys_hash(akeys)
+        aui = vc.ui_message(rng, akeys)
+        asm = (b"HSM:SIGNER:5.4" + akh) if legacy else vc.powhsm_message(rng, akh)
+        adoc, aroot = vc.v1_doc_with(rng, aui, asm)
+        yield ("genuine-other-paths" + ("-legacy" if legacy else ""), adoc, aroot.pub().hex(),
+               vc.pubkeys_json(akeys), True)
         # message-level variants (re-signed, so the chain stays valid)
         for label, ui2, sm2, ok in message_variants(rng, keys, kh, ui, sm, legacy):
             d2, r2 = vc.v1_doc_with(rng, ui2, sm2)
